@@ -493,7 +493,7 @@ private theorem map_set_same (f : α → β) {l : List α} {i : Nat} {x x' : α}
 theorem stripFH_fileHeader (a : AbstractModel) :
     stripFH (fileHeader a) =
       ⟨a.version, 0, 0, (allMeshes a).length.toUInt16, a.fileMaterialCount, Arr3.rep 0, Arr3.rep 0,
-        Arr3.rep 0, Arr3.rep 0, a.lodCount, a.indexBufferStreamingEnabled, a.hasEdgeGeometry⟩ := rfl
+        Arr3.rep 0, Arr3.rep 0, 0, a.indexBufferStreamingEnabled, a.hasEdgeGeometry⟩ := rfl
 
 /-! ### one step: `replace_vertices` -/
 
